@@ -36,7 +36,7 @@ def plan(tier, seed):
     n_h = 50 if tier == 'quick' else 1500
     cases += [{'family': 'hostile_names', 'cseed': rnd.randrange(1 << 30)} for _ in range(n_h)]
     # wide groups (11-16 nodes of one type): vectorization grouping with index-based edge forms
-    cases += [{'family': 'wide', 'cseed': rnd.randrange(1 << 30)} for _ in range(24 if tier == 'quick' else 500)]
+    cases += [{'family': 'wide', 'cseed': rnd.randrange(1 << 30)} for _ in range(48 if tier == 'quick' else 600)]
     # edges through EdgeTemplates (one- and two-input edge operators, the second input addressed by an explicit variable path)
     cases += [{'family': 'edge_templates', 'cseed': rnd.randrange(1 << 30)} for _ in range(40 if tier == 'quick' else 900)]
     return cases
@@ -72,12 +72,15 @@ def make_case(case, ctx):
         svars = sorted({(k[1], k[2]) for k in ref.state_keys})
         depth = max(n.count('/') for n in ref.node_order)
         requests = []
-        for _ in range(rnd.randint(1, 3)):
+        wide = case.get('family') == 'wide'
+        for _ in range(rnd.randint(1, 3) if not wide else rnd.randint(2, 4)):
             op, var = rnd.choice(svars)
             holders = [n for n in ref.node_order if (n, op, var) in ref.kind]
             n = rnd.choice(holders)
             parts = n.split('/')
             mode = rnd.choice(['single', 'single', 'all_leaf', 'all_some', 'all_all'])
+            if wide:
+                mode = rnd.choice(['single', 'all_leaf', 'all_all', 'all_all'])      # wide groups: mostly whole-group requests
             if mode == 'all_leaf':
                 parts[-1] = 'all'
             elif mode == 'all_some':
